@@ -34,6 +34,7 @@ const sortingPkg = "rare/pkg/aggregation/sorting"
 
 func runC13(c *Ctx, r *Report) {
 	c13Comparators(c, r, "C13")
+	c13SorterSharing(c, r)
 	loops := analyseMapLoops(c)
 	emitMapLoops(c, r, "C13-c/map-order", loops, func(ml mapLoop) bool {
 		pp := ml.Fi.Pkg.PkgPath
@@ -58,6 +59,10 @@ func runC03(c *Ctx, r *Report) {
 	c13TieBreak(c, r, "C03-b/tie-break")
 	c03CSV(c, r)
 	c03ExitStatus(c, r)
+	// (e) what the aggregators fold is what was extracted: the redundant-state rules of C07
+	borrow(c, r, c07PairedUpdates, "C07-a", "C03-e", nil, true)
+	borrow(c, r, c07ParseErrors, "C07-c", "C03-e", nil, true)
+	borrow(c, r, c07Numerical, "C07-d", "C03-e", nil, true)
 }
 
 // c05AggregationLoopAs runs the C05-b rules and files them under another prefix.
@@ -177,8 +182,10 @@ func c13Comparators(c *Ctx, r *Report, prefix string) {
 		if cm.a == nil || cm.b == nil {
 			continue
 		}
-		if detail := mixedStrategy(cm); detail != "" {
-			r.Bad(rule2, cm.where, "comparator", c.Pos(cm.pos), detail)
+		if ms := mixedStrategy(cm); len(ms) > 0 {
+			for _, m := range ms {
+				r.Bad(rule2, cm.where, m[0], c.Pos(cm.pos), m[1])
+			}
 		} else {
 			r.OK(rule2, cm.where, "comparator", c.Pos(cm.pos), "shape: no per-pair choice between different order relations (or the mixed case is ordered by class)")
 		}
@@ -206,10 +213,14 @@ func derivedTag(cm comparator, e ast.Expr, tags map[types.Object]int) int {
 	return t
 }
 
-// mixedStrategy: `if P(a) && Q(b) { return R1 }; return R2` where R1 and R2
-// compare different things and no branch orders the case "exactly one holds".
-func mixedStrategy(cm comparator) string {
+// mixedStrategy: anywhere in the comparator, `if P(a) && Q(b) { .. return R1 .. }`
+// (or the De Morgan form `if !P(a) || !Q(b) { .. } else { return R1 }`) followed
+// by returns R2 that compare something else, where no other branch orders the
+// case "exactly one of the two holds" by class *using the same predicates*.
+// Returns (construct, detail) pairs.
+func mixedStrategy(cm comparator) [][2]string {
 	tags := map[types.Object]int{}
+	defs := map[types.Object][]ast.Expr{} // local -> defining right-hand sides
 	// propagate: v := f(a) etc. (two passes are enough for straight-line code)
 	for pass := 0; pass < 2; pass++ {
 		ast.Inspect(cm.body, func(n ast.Node) bool {
@@ -228,67 +239,220 @@ func mixedStrategy(cm comparator) string {
 				} else if len(as.Rhs) == 1 {
 					rhs = as.Rhs[0]
 				}
-				if rhs != nil {
+				if rhs != nil && within(cm.body, o.Pos()) { // state captured from outside is not a function of this pair
 					tags[o] |= derivedTag(cm, rhs, tags)
+					if pass == 0 {
+						defs[o] = append(defs[o], rhs)
+					}
 				}
 			}
 			return true
 		})
 	}
-	detail := ""
-	for i, st := range cm.body.List {
-		is, ok := st.(*ast.IfStmt)
-		if !ok || is.Else != nil {
-			continue
-		}
-		be, ok := ast.Unparen(is.Cond).(*ast.BinaryExpr)
-		if !ok || be.Op != token.LAND {
-			continue
-		}
-		tx, ty := derivedTag(cm, be.X, tags), derivedTag(cm, be.Y, tags)
-		if !((tx == 1 && ty == 2) || (tx == 2 && ty == 1)) {
-			continue
-		}
-		// then-branch returns a comparison
-		if len(is.Body.List) != 1 {
-			continue
-		}
-		r1, ok := is.Body.List[0].(*ast.ReturnStmt)
-		if !ok || len(r1.Results) != 1 {
-			continue
-		}
-		// is there a later statement that orders the mixed case by class? (a condition tagged with both
-		// arguments built from the same predicates with != / XOR, or an `if P(a) { return true }`-style pair)
-		classOrdered := false
-		var r2 *ast.ReturnStmt
-		for _, later := range cm.body.List[i+1:] {
-			switch lt := later.(type) {
-			case *ast.IfStmt:
-				if lb, ok := ast.Unparen(lt.Cond).(*ast.BinaryExpr); ok && (lb.Op == token.NEQ || lb.Op == token.EQL || lb.Op == token.LOR) {
-					if derivedTag(cm, lt.Cond, tags) == 3 {
-						classOrdered = true
+	// predicate identity of an expression: the functions it calls and the locals it
+	// reads, locals defined by a plain (call-free) expression being expanded.
+	var predObjs func(e ast.Expr, depth int, out map[types.Object]bool)
+	predObjs = func(e ast.Expr, depth int, out map[types.Object]bool) {
+		ast.Inspect(e, func(n ast.Node) bool {
+			id, ok := n.(*ast.Ident)
+			if !ok {
+				return true
+			}
+			o := cm.info.Uses[id]
+			if o == nil || o == cm.a || o == cm.b {
+				return true
+			}
+			switch ov := o.(type) {
+			case *types.Func:
+				out[o] = true
+			case *types.Var:
+				if !within(cm.body, ov.Pos()) {
+					return true // captured or package-level state is not a predicate of the arguments
+				}
+				expanded := false
+				if depth < 3 {
+					for _, d := range defs[o] {
+						if !containsCall(d) {
+							predObjs(d, depth+1, out)
+							expanded = true
+						}
 					}
 				}
-				if t := derivedTag(cm, lt.Cond, tags); t == 1 || t == 2 {
-					classOrdered = true
+				if !expanded {
+					out[o] = true
 				}
-			case *ast.ReturnStmt:
-				if r2 == nil {
-					r2 = lt
+			}
+			return true
+		})
+	}
+	flatten := func(e ast.Expr, op token.Token) []ast.Expr {
+		var out []ast.Expr
+		var rec func(e ast.Expr)
+		rec = func(e ast.Expr) {
+			e = ast.Unparen(e)
+			if be, ok := e.(*ast.BinaryExpr); ok && be.Op == op {
+				rec(be.X)
+				rec(be.Y)
+				return
+			}
+			out = append(out, e)
+		}
+		rec(e)
+		return out
+	}
+	returnsIn := func(n ast.Node) []string {
+		var out []string
+		if n == nil {
+			return nil
+		}
+		inspectNoLit(n, func(x ast.Node) bool {
+			if rs, ok := x.(*ast.ReturnStmt); ok && len(rs.Results) == 1 {
+				out = append(out, exprStr(rs.Results[0]))
+			}
+			return true
+		})
+		return out
+	}
+	writesIn := func(n ast.Node) []string {
+		var out []string
+		if n == nil {
+			return nil
+		}
+		inspectNoLit(n, func(x ast.Node) bool {
+			if as, ok := x.(*ast.AssignStmt); ok && as.Tok == token.ASSIGN {
+				for _, l := range as.Lhs {
+					if id := rootIdent(l); id != nil {
+						if o, ok := cm.info.Uses[id].(*types.Var); ok && !within(cm.body, o.Pos()) {
+							out = append(out, o.Name())
+						}
+					}
+				}
+			}
+			return true
+		})
+		out = dedupStrings(out)
+		sort.Strings(out)
+		return out
+	}
+	var ifs []*ast.IfStmt
+	inspectNoLit(cm.body, func(x ast.Node) bool {
+		if is, ok := x.(*ast.IfStmt); ok {
+			ifs = append(ifs, is)
+		}
+		return true
+	})
+	var out [][2]string
+	for _, is := range ifs {
+		cond := ast.Unparen(is.Cond)
+		var conj []ast.Expr
+		var bothBranch, mixedBranch ast.Node
+		if be, ok := cond.(*ast.BinaryExpr); ok && be.Op == token.LAND {
+			conj = flatten(cond, token.LAND)
+			bothBranch = is.Body
+			if is.Else != nil {
+				mixedBranch = is.Else
+			}
+		} else if ok && be.Op == token.LOR && is.Else != nil {
+			conj = flatten(cond, token.LOR) // !P(a) || !Q(b): the else branch is the "both hold" case
+			bothBranch, mixedBranch = is.Else, is.Body
+		} else {
+			continue
+		}
+		hasA, hasB := false, false
+		preds := map[types.Object]bool{}
+		for _, cj := range conj {
+			switch derivedTag(cm, cj, tags) {
+			case 1:
+				hasA = true
+				predObjs(cj, 0, preds)
+			case 2:
+				hasB = true
+				predObjs(cj, 0, preds)
+			}
+		}
+		if !hasA || !hasB || len(preds) == 0 {
+			continue
+		}
+		r1 := returnsIn(bothBranch)
+		if len(r1) == 0 {
+			continue
+		}
+		// R2: returns of the mixed branch and every return textually after the statement
+		r2 := returnsIn(mixedBranch)
+		inspectNoLit(cm.body, func(x ast.Node) bool {
+			if rs, ok := x.(*ast.ReturnStmt); ok && len(rs.Results) == 1 && rs.Pos() > is.End() {
+				r2 = append(r2, exprStr(rs.Results[0]))
+			}
+			return true
+		})
+		if len(r2) == 0 {
+			continue
+		}
+		same := true
+		for _, x := range r1 {
+			found := false
+			for _, y := range r2 {
+				if x == y {
+					found = true
+				}
+			}
+			if !found {
+				same = false
+			}
+		}
+		if same {
+			continue
+		}
+		// class ordering: another branch whose condition depends on one argument alone, or on both through
+		// != / == / ||, built from the same predicates
+		classOrdered := false
+		for _, other := range ifs {
+			if other == is {
+				continue
+			}
+			oc := ast.Unparen(other.Cond)
+			t := derivedTag(cm, oc, tags)
+			ok := t == 1 || t == 2
+			if be, isBin := oc.(*ast.BinaryExpr); isBin && t == 3 && (be.Op == token.NEQ || be.Op == token.EQL || be.Op == token.LOR) {
+				ok = true
+			}
+			if !ok {
+				continue
+			}
+			op := map[types.Object]bool{}
+			predObjs(oc, 0, op)
+			for o := range op {
+				if preds[o] {
+					classOrdered = true
 				}
 			}
 		}
-		if r2 == nil || len(r2.Results) != 1 {
+		if classOrdered {
 			continue
 		}
-		if exprStr(r1.Results[0]) == exprStr(r2.Results[0]) {
-			continue
+		mixed := "falls through"
+		if w := writesIn(mixedBranch); len(w) > 0 {
+			mixed = "sets " + strings.Join(w, ",")
 		}
-		if !classOrdered {
-			detail = fmt.Sprintf("comparator uses %s when %s holds for both arguments and %s otherwise, without ordering the mixed case by class: the pairwise decisions are not transitive (e.g. \"2\" < \"10\" < \"1a\" < \"2\"), so the sorted sequence depends on the initial permutation", exprStr(r1.Results[0]), exprStr(is.Cond), exprStr(r2.Results[0]))
+		construct := fmt.Sprintf("per-pair strategy under %s; mixed case %s", exprStr(is.Cond), mixed)
+		which := "when " + exprStr(is.Cond) + " (a condition on both arguments)"
+		if bothBranch == is.Else {
+			which = "when " + exprStr(is.Cond) + " is false (a condition on both arguments)"
 		}
+		out = append(out, [2]string{construct, fmt.Sprintf("comparator returns %s %s and %s otherwise, without ordering by class the pairs for which the condition holds for exactly one argument: two different order relations are mixed pair by pair, the decisions are not transitive (as in \"2\" < \"10\" < \"1a\" < \"2\"), so the sorted sequence depends on the initial permutation", strings.Join(dedupStrings(r1), " / "), which, strings.Join(dedupStrings(r2), " / "))})
 	}
-	return detail
+	return out
+}
+
+func containsCall(e ast.Expr) bool {
+	found := false
+	ast.Inspect(e, func(n ast.Node) bool {
+		if _, ok := n.(*ast.CallExpr); ok {
+			found = true
+		}
+		return true
+	})
+	return found
 }
 
 // c13TieBreak: every comparator over sorting.NameValuePair mentions the Name
@@ -733,4 +897,158 @@ func c03ExitStatus(c *Ctx, r *Report) {
 		r.Check(ok, rule2, funcDisplayName(p.PkgPath, fd), "return helpers.DetermineErrorState(..)", c.Pos(last.Pos()), "shape: the command's result is the documented exit status", "an aggregating command does not end by returning DetermineErrorState: read/parse errors or an empty result no longer set the exit status")
 	})
 	r.Floor(rule2, 7, "histogram, table, heatmap, spark, bargraph, analyze, reduce")
+}
+
+// c13SorterSharing (C13-a/fresh-comparator): comparators with memory exist in
+// this code base (contextual, date: known findings), so a comparator value
+// must be built per use. No comparator-typed value may be stored into
+// package-level state at run time, and no package-level initialiser may hold
+// the result of a constructor whose comparator keeps state.
+func c13SorterSharing(c *Ctx, r *Report) {
+	const rule = "C13-a/fresh-comparator"
+	isCmpType := func(t types.Type) bool {
+		if t == nil {
+			return false
+		}
+		if sig, ok := t.Underlying().(*types.Signature); ok {
+			return isComparatorSig(sig)
+		}
+		switch u := t.Underlying().(type) {
+		case *types.Map:
+			if sig, ok := u.Elem().Underlying().(*types.Signature); ok {
+				return isComparatorSig(sig)
+			}
+		case *types.Slice:
+			if sig, ok := u.Elem().Underlying().(*types.Signature); ok {
+				return isComparatorSig(sig)
+			}
+		}
+		return false
+	}
+	// constructors (functions of the sorting package returning a comparator) whose literal writes captured state,
+	// closed under "calls such a constructor"
+	stateful := map[*types.Func]bool{}
+	decls := c.AllFuncDecls(sortingPkg)
+	for _, cm := range comparatorsIn(c, sortingPkg) {
+		fl, ok := cm.outer.(*ast.FuncLit)
+		if !ok {
+			continue
+		}
+		writes := false
+		ast.Inspect(cm.body, func(n ast.Node) bool {
+			if as, ok := n.(*ast.AssignStmt); ok {
+				for _, l := range as.Lhs {
+					if id := rootIdent(l); id != nil {
+						if o, ok := cm.info.Uses[id].(*types.Var); ok && !within(fl, o.Pos()) {
+							writes = true
+						}
+					}
+				}
+			}
+			return true
+		})
+		if !writes {
+			continue
+		}
+		for _, fi := range decls {
+			if within(fi.Decl, fl.Pos()) {
+				stateful[fi.Obj] = true
+			}
+		}
+	}
+	for changed := true; changed; {
+		changed = false
+		for _, fi := range decls {
+			if stateful[fi.Obj] {
+				continue
+			}
+			ast.Inspect(fi.Decl.Body, func(n ast.Node) bool {
+				if ce, ok := n.(*ast.CallExpr); ok {
+					if f := calleeFunc(fi.Pkg.TypesInfo, ce); f != nil && stateful[f] {
+						stateful[fi.Obj] = true
+						changed = true
+					}
+				}
+				return true
+			})
+		}
+	}
+	n := 0
+	for _, p := range c.Pkgs {
+		if isTestSupportPkg(p.PkgPath) {
+			continue
+		}
+		info := p.TypesInfo
+		for _, file := range p.Syntax {
+			for _, d := range file.Decls {
+				switch dd := d.(type) {
+				case *ast.GenDecl:
+					if dd.Tok != token.VAR {
+						continue
+					}
+					for _, sp := range dd.Specs {
+						vs := sp.(*ast.ValueSpec)
+						for i, nm := range vs.Names {
+							o := info.Defs[nm]
+							if o == nil || !isCmpType(o.Type()) {
+								continue
+							}
+							n++
+							var init ast.Expr
+							if i < len(vs.Values) {
+								init = vs.Values[i]
+							}
+							bad := ""
+							if init != nil {
+								ast.Inspect(init, func(x ast.Node) bool {
+									if ce, ok := x.(*ast.CallExpr); ok {
+										if f := calleeFunc(info, ce); f != nil && stateful[f] {
+											bad = f.Name()
+										}
+									}
+									return true
+								})
+							}
+							r.Check(bad == "", rule, p.PkgPath, "var "+nm.Name, c.Pos(nm.Pos()), "stateless: the shared comparator is built from comparators that keep no state",
+								"a package-level comparator is built by "+bad+", whose comparator remembers what it inferred from earlier pairs: every sort in the process would share (and inherit) that memory, so the order of one key set depends on which other keys were sorted before")
+						}
+					}
+				case *ast.FuncDecl:
+					if dd.Body == nil {
+						continue
+					}
+					ast.Inspect(dd.Body, func(x ast.Node) bool {
+						as, ok := x.(*ast.AssignStmt)
+						if !ok {
+							return true
+						}
+						for i, l := range as.Lhs {
+							id := rootIdent(l)
+							if id == nil {
+								continue
+							}
+							o, ok := info.Uses[id].(*types.Var)
+							if !ok || o.Pkg() == nil || o.Parent() != o.Pkg().Scope() {
+								continue
+							}
+							var rt types.Type
+							if len(as.Rhs) == len(as.Lhs) {
+								rt = info.TypeOf(as.Rhs[i])
+							}
+							lt := info.TypeOf(l)
+							if !(isCmpType(lt) || isCmpType(rt)) {
+								continue
+							}
+							n++
+							r.Bad(rule, fdName(p, dd), exprStr(l)+" = ..", c.Pos(as.Pos()),
+								"a comparator is stored into the package-level variable "+o.Name()+" at run time: comparators of the contextual and date modes keep state (inferred set / layout, sticky fallback), so a stored comparator carries what it learnt from one key set into the next sort and the order no longer depends on the data alone")
+						}
+						return true
+					})
+				}
+			}
+		}
+	}
+	r.OK(rule, sortingPkg, "scan", "-", fmt.Sprintf("scan: %d package-level comparator variables / run-time stores examined; constructors with memory: %d", n, len(stateful)))
+	r.Floor(rule, 3, "NVValueSorter, NVNameSorter, NVSmartSorter + scan")
 }
